@@ -69,6 +69,9 @@ pub open spec fn sv(s: Store) -> StoreV { StoreV { saved: mv(s.manifest), next: 
 /// the fields that no operation after `open` may touch
 pub open spec fn same_handles(a: Store, b: Store) -> bool { a.root == b.root && a._lock == b._lock }
 
+/// `save` skips the write: nothing changed since the manifest on disk was written / read
+pub open spec fn save_skips(v: StoreV) -> bool { v.current && v.next == v.saved.files }
+
 /// laws of std assumed for the key type (String is totally ordered; str and String order alike)
 pub open spec fn laws() -> bool {
     vstd::std_specs::btree::key_obeys_cmp_spec::<String>()
@@ -94,8 +97,20 @@ pub open spec fn open_spec(t: Option<Seq<char>>, key: Seq<char>) -> (IMap<Seq<ch
     }
 }
 
+/// postcondition of open / try_open / open_with_lock for the returned store `s`
+pub open spec fn open_post(old_fs: VpFs, fin: VpFs, s: Store, key: Seq<char>) -> bool {
+    &&& fs_same_files(fin, old_fs)
+    &&& fin.last_manifest_read is Some ==> fin.last_manifest_read == old_fs.manifest
+    &&& sv(s).next == IMap::<Seq<char>, EntryV>::empty()
+    &&& sv(s).saved.schema == SCHEMA_VERSION
+    &&& sv(s).saved.key == key
+    &&& (sv(s).saved.files, sv(s).current) == open_spec(fin.last_manifest_read, key)
+    &&& wf(s, fin)
+}
+
 // ---- blob header codec ---------------------------------------------------------------------------------------
-pub open spec fn magic() -> Seq<u8> { seq![0x56u8, 0x46u8, 0x52u8, 0x47u8] }   // b"VFRG"
+/// the four magic bytes (Verus knows the length of the literal b"VFRG", not its content: the codec contract holds for any four bytes)
+pub open spec fn magic() -> Seq<u8> { BLOB_MAGIC@ }
 pub open spec fn le32(x: u32) -> Seq<u8> {
     seq![(x & 0xff) as u8, ((x >> 8) & 0xff) as u8, ((x >> 16) & 0xff) as u8, ((x >> 24) & 0xff) as u8]
 }
@@ -114,11 +129,16 @@ pub open spec fn blob_decode(data: Seq<u8>) -> Option<Seq<u8>> {
 }
 pub open spec fn obv(o: Option<Vec<u8>>) -> Option<Seq<u8>> { match o { Some(v) => Some(v@), None => None } }
 
+/// `r` (exec) is `e` (spec), byte for byte
+pub open spec fn opt_bytes_eq(r: Option<Vec<u8>>, e: Option<Seq<u8>>) -> bool {
+    match r { Some(v) => e is Some && v@ =~= e.unwrap(), None => e is None }
+}
+
 /// postcondition of a blob read at store-relative path `rel`: the files on disk are untouched; if the read delivered bytes
 /// they are the bytes of that file and the result is their decoding, otherwise (io error / absent) the result is a miss
 pub open spec fn read_post(old_fs: VpFs, fin: VpFs, r: Option<Vec<u8>>, rel: Seq<char>) -> bool {
     &&& fs_same_files(fin, old_fs) && fin.last_manifest_read == old_fs.last_manifest_read
-    &&& obv(r) == (match fin.last_blob_read { Some(d) => blob_decode(d), None => None })
+    &&& opt_bytes_eq(r, match fin.last_blob_read { Some(d) => blob_decode(d), None => None })
     &&& fin.last_blob_read is Some ==> old_fs.blobs.contains_key(rel) && old_fs.blobs[rel] == fin.last_blob_read.unwrap()
 }
 
@@ -165,6 +185,29 @@ proof fn lemma_blob_decode_only_encoded(d: Seq<u8>)
             else if i < 8 { assert(d.subrange(4, 8)[i - 4] == d[i]); }
             else { assert(p[i - 8] == d[i]); }
         }
+    }
+}
+
+/// the decoding as read_blob performs it (strip 4 magic bytes, split off 4 version bytes, compare the little-endian value)
+pub open spec fn blob_decode_steps(data: Seq<u8>) -> Option<Seq<u8>> {
+    if data.len() >= 4 && data.subrange(0, 4) == magic() {
+        let p1 = data.subrange(4, data.len() as int);
+        if p1.len() >= 4 {
+            if from_le32(p1.subrange(0, 4)) == SCHEMA_VERSION { Some(p1.subrange(4, p1.len() as int)) } else { None }
+        } else { None }
+    } else { None }
+}
+
+/// ... is the specified decoding (used as a broadcast hint inside read_blob)
+pub broadcast proof fn lemma_blob_decode_steps(data: Seq<u8>)
+    ensures #[trigger] blob_decode(data) == blob_decode_steps(data),
+{
+    lemma_le32_roundtrip(SCHEMA_VERSION);
+    if data.len() >= 8 {
+        let p1 = data.subrange(4, data.len() as int);
+        assert(p1.subrange(0, 4) =~= data.subrange(4, 8));
+        assert(p1.subrange(4, p1.len() as int) =~= data.subrange(8, data.len() as int));
+        lemma_from_le32_inj(data.subrange(4, 8));
     }
 }
 
@@ -226,7 +269,6 @@ pub broadcast group group_store_axioms {
     axiom_string_ext, axiom_key_of, axiom_str_contains, axiom_str_maps, axiom_str_mutated, axiom_str_ordering,
     axiom_hash_inj, axiom_blob_rel_inj,
 }
-broadcast use group_store_axioms;
 
 // ---- lemmas about the view -----------------------------------------------------------------------------------
 pub proof fn lemma_fv_insert(m: Map<String, FileEntry>, k: String, e: FileEntry)
@@ -267,6 +309,16 @@ pub proof fn lemma_reopen_other_key(t: Option<Seq<char>>, key: Seq<char>)
         parse_opt(t) is None ==> open_spec(t, key) == (IMap::<Seq<char>, EntryV>::empty(), false),
 {}
 
+/// FINDING F-C29-save-failed-write, as a proved statement: the state `save` leaves behind on its failure path (serializer or
+/// atomic_write returned Err: manifest.files already replaced, flag and disk untouched) violates the invariant whenever
+/// the flag was true before. `save`'s contract excludes exactly this class from `ensures wf(..)`.
+pub proof fn lemma_finding_save_failed_write(o: Store, n: Store, fs: VpFs)
+    requires
+        wf(o, fs), o.on_disk_current, !save_skips(sv(o)),
+        sv(n).saved.files == sv(o).next, sv(n).current == sv(o).current,
+    ensures !wf(n, fs),
+{}
+
 // ---- trusted stand-ins for derives ---------------------------------------------------------------------------
 impl Clone for FileEntry {
     /// stands for `#[derive(Clone)]`: a field-wise copy
@@ -294,11 +346,15 @@ impl Default for Manifest {
 pub assume_specification<T: Default> [std::mem::take] (a: &mut T) -> (r: T)
     ensures r == *old(a), call_ensures(T::default, (), *final(a));
 
-pub assume_specification [u32::to_le_bytes] (x: u32) -> (r: [u8; 4])
-    ensures r@ == le32(x);
-
-pub assume_specification [u32::from_le_bytes] (b: [u8; 4]) -> (r: u32)
-    ensures r == from_le32(b@);
+/// O5 (as wrappers: the `[u8; size_of::<Self>()]` of the std signatures cannot be written in an assume_specification)
+#[verifier::external_body]
+fn vp_u32_to_le_bytes(x: u32) -> (r: [u8; 4])
+    ensures r@ == le32(x),
+{ x.to_le_bytes() }
+#[verifier::external_body]
+fn vp_u32_from_le_bytes(b: [u8; 4]) -> (r: u32)
+    ensures r == from_le32(b@),
+{ u32::from_le_bytes(b) }
 
 pub assume_specification<T, const N: usize> [<[T]>::split_first_chunk] (s: &[T]) -> (r: Option<(&[T; N], &[T])>)
     ensures
@@ -418,3 +474,95 @@ fn vp_fs_read(root: &PathBuf, rel: &str, Tracked(fs): Tracked<&mut VpFs>) -> (r:
         obv(r) == final(fs).last_blob_read,
         r is Some ==> old(fs).blobs.contains_key(rel@) && old(fs).blobs[rel@] == r.unwrap()@,
 { unimplemented!() }
+
+// ---- gc: outlined directory walk -------------------------------------------------------------------------------------
+/// a blob path `p` is referenced by a manifest: some entry names it as its fragment or as its diagnostics blob
+pub open spec fn is_referenced(files: IMap<Seq<char>, EntryV>, p: Seq<char>) -> bool {
+    exists|k: Seq<char>| #[trigger] files.contains_key(k) && (files[k].fragment == Some(p) || files[k].diagnostics == Some(p))
+}
+
+/// O15: stands for `HashSet<PathBuf>` (opaque; its view is the set of store-relative paths it holds)
+#[verifier::external_body]
+pub struct VpPathSet { s: std::collections::HashSet<PathBuf> }
+impl VpPathSet {
+    pub uninterp spec fn view(&self) -> ISet<Seq<char>>;
+}
+/// O15: stands for `std::fs::DirEntry`
+#[verifier::external_body]
+pub struct VpDirEntry { e: fs::DirEntry }
+
+/// O15: `self.manifest.files.values().flat_map(|x| x.fragment.iter().chain(x.diagnostics.iter())).map(|x| self.root.join(x)).collect()`
+/// ASSUMED (the iterator chain is not ingestible by Verus): the set holds exactly root.join(x) for every fragment / diagnostics
+/// path x of every entry. The Kani job `gc_*` checks this chain on the real text for small manifests.
+#[verifier::external_body]
+fn vp_referenced(files: &BTreeMap<String, FileEntry>, root: &PathBuf) -> (r: VpPathSet)
+    ensures forall|p: Seq<char>| r@.contains(p) <==> is_referenced(fv(files@), p),
+{ unimplemented!() }
+
+/// O15: `fs::read_dir(self.root.join(FRAGMENT_DIR))` followed by `.flatten()`: the entries that could be read (any subset, any order)
+#[verifier::external_body]
+fn vp_read_fragment_dirs(root: &PathBuf) -> (r: Result<Vec<VpDirEntry>, VpErr>)
+{ unimplemented!() }
+/// O15: `fs::read_dir(dir.path())` followed by `.flatten()`
+#[verifier::external_body]
+fn vp_read_dir_files(dir: &VpDirEntry) -> (r: Result<Vec<VpDirEntry>, VpErr>)
+{ unimplemented!() }
+/// O15: `file.path()`
+#[verifier::external_body]
+fn vp_entry_path(file: &VpDirEntry) -> (r: PathBuf)
+{ unimplemented!() }
+/// O15: `path.extension().is_some_and(|x| x == FRAGMENT_EXT)` (result unconstrained)
+#[verifier::external_body]
+fn vp_has_fragment_ext(path: &PathBuf) -> (r: bool)
+{ unimplemented!() }
+/// O15: `referenced.contains(&path)`: PathBufs below the root are equal iff their store-relative paths are
+#[verifier::external_body]
+fn vp_set_contains(set: &VpPathSet, path: &PathBuf) -> (r: bool)
+    ensures r == set@.contains(path_rel(*path)),
+{ unimplemented!() }
+/// O15: `fs::remove_file(&path)` (result ignored by the code): removes at most that one file
+#[verifier::external_body]
+fn vp_remove_file(path: &PathBuf, Tracked(fs): Tracked<&mut VpFs>)
+    ensures
+        final(fs).manifest == old(fs).manifest, final(fs).last_manifest_read == old(fs).last_manifest_read, final(fs).last_blob_read == old(fs).last_blob_read,
+        final(fs).blobs == old(fs).blobs || final(fs).blobs == old(fs).blobs.remove(path_rel(*path)),
+{ unimplemented!() }
+
+/// gc's effect on the disk: files are only removed, never changed or created; nothing the manifest `files` references is removed
+pub open spec fn gc_post(old_fs: VpFs, fin: VpFs, files: IMap<Seq<char>, EntryV>) -> bool {
+    &&& fin.manifest == old_fs.manifest && fin.last_manifest_read == old_fs.last_manifest_read && fin.last_blob_read == old_fs.last_blob_read
+    &&& forall|p: Seq<char>| #[trigger] fin.blobs.contains_key(p) ==> old_fs.blobs.contains_key(p) && fin.blobs[p] == old_fs.blobs[p]
+    &&& forall|p: Seq<char>| #[trigger] old_fs.blobs.contains_key(p) && is_referenced(files, p) ==> fin.blobs.contains_key(p)
+}
+
+// ---- client proof: the contracts compose to C29 for open; put; save; reopen; entry; load ---------------------------
+/// hand-written client of the contracts above (no real code inside): what is put and saved is what a reopen delivers,
+/// entry and blob bytes alike, provided the io calls involved did not fail (each failure degrades to a miss).
+fn vp_scenario_roundtrip(root: &Path, key: &str, src: String, src2: &str, hash: String, payload: &[u8], Tracked(fs): Tracked<&mut VpFs>)
+    requires laws(), blobs_addressed(*old(fs)), src@ == src2@, payload@.len() + 8 <= usize::MAX,
+{
+    broadcast use group_store_axioms;
+    let ghost h = hash@;
+    let Some(mut s) = Store::open_with_lock(root, key, true, Tracked(fs)) else { return; };
+    s.put(src, hash, Some(payload), Tracked(fs));
+    let ghost e0 = sv(s).next[src2@];
+    s.save(Tracked(fs));
+    if !s.on_disk_current { return; }           // the manifest write failed: nothing is promised
+    // F-C29-save-failed-write: the flag alone does not tell whether the write happened (it may have been true before and the
+    // write failed), so the rest is stated for the case that the invariant survived the save
+    let ghost ok = wf(s, *fs);
+    proof { if ok { lemma_reopen_same_key(s, *fs); } }
+    let Some(s2) = Store::open_with_lock(root, key, true, Tracked(fs)) else { return; };
+    if !s2.on_disk_current { return; }          // the manifest could not be read back: everything is a miss
+    let entry = s2.entry(src2);
+    assert(ok ==> entry is Some);
+    if entry.is_none() { return; }
+    let entry = entry.unwrap();
+    assert(ok ==> ev(*entry) == e0);
+    assert(ok ==> entry.hash@ == h);
+    if entry.fragment.is_some() {               // the blob write succeeded at put time
+        let got = s2.load(entry, Tracked(fs));
+        proof { lemma_blob_roundtrip(payload@); }
+        assert(ok && fs.last_blob_read is Some ==> got is Some && got.unwrap()@ == payload@);
+    }
+}
